@@ -83,6 +83,8 @@ def declaration(r):
     vals = " ".join(value(r) for _ in range(r.choice([1, 1, 2, 3])))
     if r.random() < 0.15:
         vals = vals.replace(" ", r.choice([" , ", ",", " / ", " /*v*/ "]), 1)
+    if r.random() < 0.12:
+        vals = vals + " " + comment(r)  # a (possibly multi-line) comment after the last component
     prio = r.choice(["", "", "", " !important", "!IMPORTANT", " ! important", " !/*p*/important"])
     sp = r.choice([":", ": ", " : ", ":/*c*/"])
     return f"{name}{sp}{vals}{prio}"
